@@ -468,8 +468,12 @@ def run_check(modname, tier, seed):
     }
     if harness_error:
         evidence["coverage"]["harness_error"] = harness_error
-    os.makedirs(os.path.join(VERIF_DIR, "evidence"), exist_ok=True)
-    with open(os.path.join(VERIF_DIR, "evidence", pid + ".json"), "w") as f:
+    # runs against a scratch copy (mutants, seeded changes: VERIF_REPO != /repo) never touch the real evidence
+    import vlib as _vlib
+    ev_dir = os.path.join(VERIF_DIR, "evidence") if os.path.abspath(_vlib.REPO) == "/repo" else \
+        os.path.join(VERIF_DIR, "evidence", "scratch")
+    os.makedirs(ev_dir, exist_ok=True)
+    with open(os.path.join(ev_dir, pid + ".json"), "w") as f:
         json.dump(evidence, f, indent=1, sort_keys=True, default=repr)
 
     for line in known_lines:
